@@ -74,10 +74,44 @@ func edit(r *vu.Rng, s []byte) []byte {
 	return b
 }
 
+// genPrefixCollision: a NON-atom that agrees with an atom on a prefix and whose hash selects that
+// atom's table slot through one of the two probes: atom name + suffix of length 1..3, 255, 256, 257,
+// 512 (the lengths where a truncated or missing length comparison would accept it). The suffix is
+// searched (expected ~256 tries, at most 4000); if none is found the last candidate is used anyway.
+func genPrefixCollision(r *vu.Rng) []byte {
+	setup()
+	tab := atom.VerifTable()
+	a := tabAtoms[r.Intn(len(tabAtoms))]
+	name := []byte(a.String())
+	sufLen := []int{1, 2, 3, 255, 256, 257, 512, 256, 256}[r.Intn(9)]
+	mask := uint32(len(tab) - 1)
+	cand := make([]byte, len(name)+sufLen)
+	copy(cand, name)
+	for try := 0; try < 4000; try++ {
+		suf := cand[len(name):]
+		if sufLen <= 3 {
+			copy(suf, r.Bytes(sufLen))
+		} else {
+			// vary only the first 4 suffix bytes, keep the rest plain
+			for k := range suf {
+				suf[k] = 'x'
+			}
+			copy(suf, r.Bytes(4))
+		}
+		h := atom.VerifFnv(atom.VerifHash0, cand)
+		if tab[h&mask] == a || tab[(h>>16)&mask] == a {
+			break
+		}
+	}
+	return cand
+}
+
 func genBytes(r *vu.Rng, i int) []byte {
 	setup()
 	text := atom.VerifAtomText()
-	switch r.Intn(12) {
+	switch r.Intn(14) {
+	case 12, 13:
+		return genPrefixCollision(r)
 	case 0, 1, 2: // every atom, in turn
 		return []byte(namedAtoms[i%len(namedAtoms)].a.String())
 	case 3, 4, 5: // atom +- one edit
@@ -230,6 +264,16 @@ func oracleLookup(s []byte, got atom.Atom, res string, o *vu.Out) {
 		o.Stat("lookup:atom")
 	} else {
 		o.Stat("lookup:non-atom")
+		if len(s) > 0 {
+			tab := atom.VerifTable()
+			h := atom.VerifFnv(atom.VerifHash0, s)
+			for _, a := range []atom.Atom{tab[h&uint32(len(tab)-1)], tab[(h>>16)&uint32(len(tab)-1)]} {
+				if a != 0 && strings.HasPrefix(string(s), a.String()) {
+					o.Stat(fmt.Sprintf("lookup:non-atom-on-slot-of-its-prefix-atom:len%%256=%d", (len(s)-len(a.String()))%256))
+					break
+				}
+			}
+		}
 	}
 	if got != want {
 		o.Fail("", fmt.Sprintf("Lookup(%q) = %#x, the dictionary of named atoms says %#x", s, uint32(got), uint32(want)))
